@@ -8,9 +8,10 @@ Lemma positive_fills_are_guarded : cache_positive_fill_guarded = true /\ cache_b
 Proof. split; reflexivity. Qed.
 
 (* ---- schedules ----
-   One writer performing any program of Put / InsertIfNotExists writes on a key (each succeeding)
-   and any number of readers performing Get / TTLGet on it, the key present or absent at the start,
-   interleaved in any order at the granularity [storage call | cache fill / cache update]:
+   One writer performing any program of Put / InsertIfNotExists / CompareAndDelete writes on a key
+   (each succeeding) and any number of readers performing Get / TTLGet on it, the key present or
+   absent at the start, interleaved in any order at the granularity
+   [storage call | cache fill / cache update]:
    a read that starts when c writes have completed returns the content left by some write j >= c
    (or, for c = 0, the initial content), i.e. never something older than a write that had completed
    before the read began - this covers values and "not found" answers (negative cache entries).
@@ -18,24 +19,33 @@ Proof. split; reflexivity. Qed.
 Lemma negative_fill_of_ttlget_is_guarded : cache_ttlget_negative_fill_guarded = true.
 Proof. reflexivity. Qed.
 
+(* a successful CompareAndDelete caches the absence of the row (repaired finding F8b) *)
+Lemma delete_leaves_marker : cache_delete_leaves_marker = true.
+Proof. reflexivity. Qed.
+
 Theorem no_stale_read_after_completed_write :
   forall (init : option N) (prog : list wop) (readers : list (list rop)) (schedule : list pid) obs,
-  Forall nodel prog ->
   sch_run (sch_init init prog readers) schedule = Some obs ->
   no_stale [init] prog false [] schedule obs = true.
 Proof.
-  exact (fun init prog readers ps obs Hp => no_stale_after_complete_proved ps _ [] obs false (Inv_init init prog readers Hp)).
+  exact (fun init prog readers ps obs => no_stale_after_complete_proved ps _ [] obs false (Inv_init init prog readers)).
 Qed.
 
-(* The restriction to programs without CompareAndDelete is necessary: a delete removes the cache
-   entry, so a reader that fetched the value before the delete completed re-fills it afterwards and
-   every later Get returns the deleted value (recorded finding F8b). *)
-Example no_stale_with_delete_refuted :
-  exists sched obs, sch_run (sch_init (Some 7%N) [WDel] [[OpGet]; [OpGet]]) sched = Some obs
+(* The marker is necessary: if a delete only dropped the cache entry (the code before the repair of
+   F8b), a reader that fetched the value before the delete completed would re-fill it afterwards and
+   every later Get would return the deleted value. *)
+Example no_stale_if_delete_drops_entry_refuted :
+  exists sched obs, sch_run_gen false (sch_init (Some 7%N) [WDel] [[OpGet]; [OpGet]]) sched = Some obs
                     /\ no_stale [Some 7%N] [WDel] false [] sched obs = false.
 Proof.
   exists [PR 0; PR 0; PW; PW; PR 0; PR 1]. eexists. split; [vm_compute; reflexivity|vm_compute; reflexivity].
 Qed.
+
+(* the same schedule on the code as it is *)
+Example delete_schedule_now_fresh :
+  exists obs, sch_run (sch_init (Some 7%N) [WDel] [[OpGet]; [OpGet]]) [PR 0; PR 0; PW; PW; PR 0; PR 1] = Some obs
+              /\ In (SGetHit 1 None) obs.
+Proof. eexists. split; [vm_compute; reflexivity|cbn; tauto]. Qed.
 
 (* ---- sequential histories ----
    For every history of Put / PutBatch / Get / GetBatch / InsertIfNotExists / CompareAndSwap /
@@ -60,8 +70,8 @@ Qed.
 Example no_stale_nonvacuous :
   let sched := [PR 0; PR 0; PW; PW; PR 0; PR 1; PW; PR 1; PW; PR 1; PR 2; PR 2] in
   exists obs, sch_run (sch_init None [WIns 1%N; WPut 2%N] [[OpTTLGet]; [OpGet; OpGet; OpGet]; [OpTTLGet; OpGet]]) sched = Some obs
-              /\ In (SGetHit 1 (Some 1%N)) obs /\ In (SGetDone None) obs /\ Forall nodel [WIns 1%N; WPut 2%N].
-Proof. eexists. split; [vm_compute; reflexivity|]. split; [cbn; tauto|]. split; [cbn; tauto|]. repeat constructor; discriminate. Qed.
+              /\ In (SGetHit 1 (Some 1%N)) obs /\ In (SGetDone None) obs.
+Proof. eexists. split; [vm_compute; reflexivity|]. split; cbn; tauto. Qed.
 
 Example cache_transparent_nonvacuous :
   let K := fun k : bytes * bytes => fst k = [97%N; 97%N] in
